@@ -81,7 +81,7 @@ def generate(rep):
                           "CONSTRAINT Emit\nINVARIANT QuestionsLabelled\nCHECK_DEADLOCK FALSE\n")
         cs, r = tlc.generate("Gen_Itext", cfg, tag="genitext", timeout=1500, heap="6g")
         rep.add_mc(r, f"Gen_Itext {name}: every matrix with <= {maxc} departures from the base matrix x default language in {{unset, A, B, Z}}")
-        rep.bounds[f"matrices_{name}"] = {"max_changes": maxc, "pairs": 15 if core else 34, "cases": len(cs)}
+        rep.bounds[f"matrices_{name}"] = {"max_changes": maxc, "pairs": 16 if core else 34, "cases": len(cs)}
         cases += corpus.pick(cs, lim, rep.seed) if lim else cs
     if tier == "quick":
         # deeper and wider by simulation (all 30 pairs, up to 4 departures)
